@@ -307,9 +307,10 @@ def c12_r2(ctx, f):
                     tgt_ok = bool(idx) and poly.normalise(idx[0][2][1], ren) == poly.A(("enum0", cdefs[0]))
             okl = tgt_ok
             _ = ps_
-    ctx.check(rid, okl, fn.path + "/every-layer", c.where(), fn.path, "layer loop",
-              "the callback does not run for every configured layer with its output appended to that layer's path",
-              found=expr_str(callee, fn), sample="for (i, command) in commands.iter().enumerate(): paths[i] += command(..)")
+    if okl:
+        ctx.ok(rid, "for (i, command) in commands.iter().enumerate(): paths[i] += command(..)")
+    else:
+        ctx.abstain(rid, "layer loop is not `for (i, command) in commands.iter().enumerate()` with `paths[i]` as target: %s" % expr_str(callee, fn)[:80], c.where())
 
 
 def loop_kind(fn, next_def_id):
@@ -563,6 +564,10 @@ def c12_r6(ctx, f):
                         own = a0[0] == "call" and a0[1] == "as_ref" and any(y[0] == "index" for y in subexprs(a0))
                         # index = the layer's enumerate index
                         ok = dflt and own
+            if not ok and src is not None and "dot_color" in src and "background_color" not in src:
+                # an unwrap_or(dot_color) whose first operand is not in the `command_colors[i].as_ref()` shape (zip, iterator item..)
+                ctx.abstain(rid, "%s of a layer: own-colour operand not recognised: %s" % (attr, src[:100]), fn.where(s.new_call.point))
+                continue
             ctx.check(rid, ok, "%s/%s" % (fn.path, attr), fn.where(s.new_call.point), fn.path, attr + " attribute of a layer",
                       "the layer's %s is not `its own colour, else the module colour`" % attr, expected="command_colors[i].unwrap_or(dot_color)",
                       found=src or expr_str(e, fn), sample="%s = command_colors[i] or dot_color" % attr)
@@ -621,6 +626,10 @@ def c12_r5(ctx, f):
         else:
             seq.append((src["kind"], pc))
     names = [s[0] for s in seq]
+    if any("None" in n_ for n_ in names) or any(n_ not in ("#", "hex0", "hex1", "hex2", "hex3") and "badformat" not in n_ for n_ in names):
+        # components pushed in a loop / through another idiom: which component goes where is not recognised
+        ctx.abstain(rid, "colour components are not pushed as four separate format!() of color[k]: %s" % names, where_fn(fn))
+        return
     ctx.check(rid, names == ["#", "hex0", "hex1", "hex2", "hex3"], fn.path + "/sequence", where_fn(fn), fn.path, "pushed pieces",
               "the colour string is not '#' followed by the components 0,1,2,(3), each as two zero-padded lower-case hex digits",
               expected=["#", "hex0", "hex1", "hex2", "hex3"], found=names, sample=" ".join(names))
